@@ -20,7 +20,7 @@ RULE = ("Engine::pairing (affine and non-normalised projective inputs) and Curve
 ASSUMPTIONS = ["textbook pairing model (reproduces the RELIC e(g1,g2) literal in the model self-test)", "scalars of the multiples are read from the logged mul calls, which are themselves judged against the model"]
 MIN_EVALS = {"quick": 300, "thorough": 20000}
 
-SCALARS = [0, 1, 2, R - 1, R, R + 1, (1 << 255) - 1]
+SCALARS = [0, 1, 2, R - 1, R, R + 1, (1 << 255) - 1, 1 << 255, (1 << 256) - 1, 2 * R + 3]
 
 
 def plan(tier, seed):
@@ -55,8 +55,15 @@ def run_shard(shard, tier, seed, wd, res):
             a, b = rng.getrandbits(255), rng.getrandbits(256)
         if rng.random() < 0.5:
             a, b = b, a
-        Pp = s.op("g1.amul", P0, V.RR(a))
-        Qp = s.op("g2.amul", Q0, V.RR(b))
+        # the multiples through both plain multiplication paths (affine mul and projective mul_assign)
+        if rng.random() < 0.5:
+            Pp = s.op("g1.amul", P0, V.RR(a))
+        else:
+            Pp = s.op("g1.mul", s.op("g1.to_proj", P0), V.RR(a))
+        if rng.random() < 0.5:
+            Qp = s.op("g2.amul", Q0, V.RR(b))
+        else:
+            Qp = s.op("g2.mul", s.op("g2.to_proj", Q0), V.RR(b))
         Pa, Qa = s.op("g1.to_affine", Pp), s.op("g2.to_affine", Qp)
         which = rng.randrange(4)
         if which == 0:
@@ -97,7 +104,7 @@ def judge(ctx, rec, res):
     res.evals += 1
     if F.f12_pow(e, R) != F.F12_ONE:
         return "an element of order dividing r"
-    if not trivial and rec.id % 7 == 0:
+    if not trivial and rec.id % 3 == 0:
         # the textbook pairing of the actual operands (not via bilinearity)
         res.evals += 1
         res.info["direct textbook comparisons"] += 1
